@@ -412,6 +412,11 @@ pub fn run(tier: Tier) -> i32 {
         ("split/wh-two-references-comma", "<circle id=\"a\" cxy=\"100 100\" rxy=\"15 20\"/><rect x=\"0\" y=\"0\" wh=\"#a~h, #a~w\"/>".into(), "<circle id=\"a\" cxy=\"100 100\" rxy=\"15 20\"/><rect x=\"0\" y=\"0\" width=\"#a~h\" height=\"#a~w\"/>".into()),
         ("defaults-other-kind/radius-vs-wh", "<defaults><circle r=\"5\"/></defaults><circle cxy=\"0\" wh=\"2\"/>".into(), "<defaults><circle r=\"5\"/></defaults><circle cxy=\"0\" r=\"1\"/>".into()),
         ("defaults-other-kind/corner-vs-centre", "<defaults><rect x=\"5\" y=\"5\"/></defaults><rect cxy=\"1\" wh=\"2\"/>".into(), "<defaults><rect x=\"5\" y=\"5\"/></defaults><rect xy=\"0\" wh=\"2\"/>".into()),
+        // sixth review round: xy-loc goes with xy; without one it means nothing and is not output either
+        ("xy-loc-without-xy/rect", "<rect x=\"5\" y=\"5\" xy-loc=\"c\" wh=\"4\"/>".into(), "<rect x=\"5\" y=\"5\" wh=\"4\"/>".into()),
+        ("xy-loc-without-xy/circle", "<circle cx=\"5\" cy=\"5\" r=\"2\" xy-loc=\"tl\"/>".into(), "<circle cx=\"5\" cy=\"5\" r=\"2\"/>".into()),
+        ("xy-loc-on-text/top", "<text xy=\"10 20\" xy-loc=\"t\" text=\"hi\"/>".into(), "<text x=\"10\" y=\"20\" text=\"hi\"/>".into()),
+        ("xy-loc-on-text/left", "<text xy=\"10 20\" xy-loc=\"bl\" text=\"hi\"/>".into(), "<text x=\"10\" y=\"20\" text=\"hi\"/>".into()),
         ("resize-rect-centre-length", "<rect cx=\"6\" width=\"10\" cy=\"5\" height=\"10\" dwh=\"2\"/>".into(), "<rect cx=\"6\" width=\"12\" cy=\"5\" height=\"12\"/>".into()),
     ];
     let st = run_space(eq_pairs.len(), |i| {
